@@ -6,7 +6,7 @@ depth first) until every feasible path has been run.
 """
 import z3
 
-FEAS_TIMEOUT_MS = 20000
+FEAS_TIMEOUT_MS = 3000
 
 
 class PathAbort(Exception):
